@@ -45,7 +45,7 @@ def families(tier: str) -> list[dict]:
         # damping baked into the second-order data, varying with the step:
         # a load must recompute with the RESTORED step count / damping
         dict(method='inverse', prediv=False, F=1, I=3, in_hook=True,
-             damping='damp_lin'),
+             damping='damp_lin', model='featcls'),
         dict(method='eigen', prediv=True, F=1, I=2, in_hook=False,
              damping='damp_lin', model='mixb'),
         # the fresh preconditioner is constructed with OTHER constants
@@ -56,7 +56,7 @@ def families(tier: str) -> list[dict]:
         # the state is kept as a live in-memory object while training goes on
         # (work lost by the crash) and that very object is loaded later
         dict(method='eigen', prediv=True, F=1, I=2, in_hook=True,
-             inmem_ckpt=True),
+             inmem_ckpt=True, model='featcls'),
         dict(method='inverse', prediv=False, F=2, I=2, in_hook=False,
              inmem_ckpt=True, fresh_perturb=True),
     ]
